@@ -315,7 +315,8 @@ namespace GeographicLib {
       fy = -lat * _rlatres;
     int
       ix = int(floor(fx)),
-      iy = min((_height - 1)/2 - 1, int(floor(fy)));
+      // fy can round to slightly less than -(_height - 1)/2 at the north pole
+      iy = max(-(_height - 1)/2, min((_height - 1)/2 - 1, int(floor(fy))));
     fx -= ix;
     fy -= iy;
     iy += (_height - 1)/2;
